@@ -7,13 +7,13 @@ for d in sorted(os.listdir('/verif/seeded')):
     n += 1
     if r.startswith('MISSED') or 'first run: UNDECIDED' in r: note = 'first miss'; miss += 1
     if 'NOT A VIOLATION' in r: note = 'no violation after fix'; nov += 1
-    if r.startswith('NOT CAUGHT'): note = 'not caught (outside the bound)'; out += 1
+    if r.startswith('NOT CAUGHT'): note = 'not caught'; out += 1
     r = r.replace('|', '/')
     if len(r) > 330: r = r[:327] + '...'
     rows.append("| `%s` | %s | %s |" % (d, r, note))
 f = '/verif/DESIGN.md'; s = open(f).read()
 a = s.index("<!--SEEDS-BEGIN-->"); b = s.index("<!--SEEDS-END-->")
-summary = ("\nOf %d: %d reported at once, %d after a strengthening that the miss motivated (§10), %d not caught because it needs a structure beyond the bound, %d is no violation on the repaired tree (C14).\n" % (n, n - miss - nov - out, miss, out, nov))
+summary = ("\nOf %d: %d reported at once, %d after a strengthening that the miss motivated (§10), %d not caught (beyond the bound, or the check ends UNDECIDED), %d is no violation on the repaired tree (C14).\n" % (n, n - miss - nov - out, miss, out, nov))
 s = s[:a] + "<!--SEEDS-BEGIN-->\n| seeded change | reported by (unit: obligation) | note |\n|---|---|---|\n" + "\n".join(rows) + "\n" + summary + s[b:]
 open(f, 'w').write(s)
 print(summary)
